@@ -320,18 +320,23 @@ theorem decode_scalar_ok (X : Ext) (s : Sch) {evs r : List Ev} {raw : Bytes} {v 
 theorem textOf_stop (n : Bytes) (rest : List Ev) : textOf (.stop n :: rest) = .ok ([], .stop n :: rest) := by
   simp [textOf, textLoop]
 
-/-- `Deserializer::text` at a lone text piece: the piece as it is (fast path) -/
-theorem textOf_text_stop (raw n : Bytes) (rest : List Ev) :
-    textOf (.text raw :: .stop n :: rest) = .ok (raw, .stop n :: rest) := by
+/-- `Deserializer::text` at a lone text piece: the piece with its line ends normalised (fast path) -/
+theorem textOf_text_stop' (raw n : Bytes) (rest : List Ev) :
+    textOf (.text raw :: .stop n :: rest) = .ok (normText raw, .stop n :: rest) := by
   simp [textOf, textLoop]
 
+/-- … which is the piece as it is when it holds no literal CR — everything the serialiser writes (`escapeText_noCr`) -/
+theorem textOf_text_stop (raw n : Bytes) (rest : List Ev) (hcr : ∀ c ∈ raw, c ≠ 13) :
+    textOf (.text raw :: .stop n :: rest) = .ok (raw, .stop n :: rest) := by
+  rw [textOf_text_stop', normText_of_noCr hcr]
+
 theorem decode_scalar_text (X : Ext) (s : Sch) (raw : Bytes) (v : Val) (n : Bytes) (rest : List Ev)
-    (hs : isScalar s = true) (hraw : decodeScalarText X s raw = .ok v) :
+    (hs : isScalar s = true) (hcr : ∀ c ∈ raw, c ≠ 13) (hraw : decodeScalarText X s raw = .ok v) :
     decode X s (textEv raw ++ .stop n :: rest) = .ok (v, .stop n :: rest) := by
   by_cases hr : raw = []
   · subst hr
     exact decode_scalar_ok X s hs (by simp [textEv, textOf_stop]) hraw
-  · exact decode_scalar_ok X s hs (by simp [textEv, hr, textOf_text_stop]) hraw
+  · exact decode_scalar_ok X s hs (by simp [textEv, hr, textOf_text_stop _ _ _ hcr]) hraw
 
 
 /-! ### the round trip -/
@@ -346,29 +351,29 @@ mutual
     | .str, .str b, _, hfit, n, rest => by
       simp only [Fits] at hfit
       simp only [encode]
-      exact decode_scalar_text X .str _ _ n rest rfl (by simp [decodeScalarText, decodeStr_escapeText hfit, Except.map])
+      exact decode_scalar_text X .str _ _ n rest rfl (escapeText_noCr _) (by simp [decodeScalarText, decodeStr_escapeText hfit, Except.map])
     | .enm, .str b, _, hfit, n, rest => by
       simp only [Fits] at hfit
       simp only [encode]
-      exact decode_scalar_text X .enm _ _ n rest rfl (by simp [decodeScalarText, decodeStr_escapeText hfit, Except.map])
+      exact decode_scalar_text X .enm _ _ n rest rfl (escapeText_noCr _) (by simp [decodeScalarText, decodeStr_escapeText hfit, Except.map])
     | .i32, .int i, _, hfit, n, rest => by
       simp only [Fits] at hfit
       simp only [encode]
-      exact decode_scalar_text X .i32 _ _ n rest rfl
+      exact decode_scalar_text X .i32 _ _ n rest rfl (escapeText_noCr _)
         (by simp [decodeScalarText, escapeText_fmtInt, parseInt_fmtInt hfit.1 hfit.2])
     | .i64, .int i, _, hfit, n, rest => by
       simp only [Fits] at hfit
       simp only [encode]
-      exact decode_scalar_text X .i64 _ _ n rest rfl
+      exact decode_scalar_text X .i64 _ _ n rest rfl (escapeText_noCr _)
         (by simp [decodeScalarText, escapeText_fmtInt, parseInt_fmtInt hfit.1 hfit.2])
     | .bool, .bool b, _, _, n, rest => by
       simp only [encode]
-      exact decode_scalar_text X .bool _ _ n rest rfl
+      exact decode_scalar_text X .bool _ _ n rest rfl (escapeText_noCr _)
         (by simp [decodeScalarText, escapeText_fmtBool, parseBool_fmtBool])
     | .ts f, .ts t, _, hfit, n, rest => by
       simp only [Fits] at hfit
       simp only [encode]
-      exact decode_scalar_text X (.ts f) _ _ n rest rfl
+      exact decode_scalar_text X (.ts f) _ _ n rest rfl (escapeText_noCr _)
         (by simp [decodeScalarText, hfit.2.2, hfit.2.1, hfit.1])
     | .struct fs, .struct vs, hwf, hfit, n, rest => by
       simp only [Fits] at hfit
